@@ -112,7 +112,7 @@ def clean_tokens(path):
     accessors; 'as X' -> 'X'"""
     out = []
     for tok in path[1:]:
-        if tok == '*' or tok == '[]':
+        if tok == '*' or tok == '[]' or tok.startswith('in '):
             continue
         if tok.startswith('@'):
             if tok in ('@keys', '@values', '@iter', '@iter_mut', '@values_mut', '@drain', '@into_keys', '@into_values'):
